@@ -508,3 +508,11 @@ def replay(case, seed):
     r3 = run_unit({'kind': 'wide', 'lo': lo, 'hi': lo + 1, 'dense': True}, 'thorough', seed)
     r4 = run_unit({'kind': 'half', 'nmax': 64}, 'quick', seed)
     return r3['violations'] + r4['violations']
+
+# a subset of the units is executed again in other environments (child interpreters): see core.run_variants
+ENV_VARIANTS = [{'name': 'python-O', 'flags': ['-O']}]
+
+def variant_units(tier, seed, name):
+    pred = lambda uid, p: (p.get('kind') == 'unary' and p.get('n', 9) <= 4) or p.get('kind') == 'nolength'
+    return [u for u in units('quick', seed) if pred(u[0], u[1])]
+
